@@ -12,11 +12,19 @@
 #include <cstdio>
 #include <cstdlib>
 
+#if defined(JOHNMCFARLANE_CNL_VERIF)
+// verification hook: lets a harness observe (and recover from) the abort path in-process
+extern "C" void johnmcfarlane_cnl_verif_on_abort(char const* message) noexcept;
+#endif
+
 namespace cnl {
     namespace _impl {
         template<class Result>
         [[noreturn]] constexpr auto abort(char const* message) noexcept -> Result
         {
+#if defined(JOHNMCFARLANE_CNL_VERIF)
+            johnmcfarlane_cnl_verif_on_abort(message);
+#endif
             (void)std::fputs(message, stderr);
             (void)std::fputc('\n', stderr);
             std::abort();
